@@ -295,4 +295,123 @@ theorem placeTarget_nearest (hw : StrictWeak W) (o : EpochOpts W) (q : Pop W) (b
       intro j sj rj hsj hrj hltj
       exact hmin j _ ((dists_getElem o b.genome q.species j _).mpr ⟨sj, rj, hsj, hrj, rfl⟩) hltj
 
+/-! ### (a) the stages of `nextEpoch`: one `speciate` call on the babies in order of creation, then the purge -/
+
+/-- the species list `reproducePhase` mates across (the executor's sorted list, resolved in the prepared population) -/
+def sortedOf (ex : ExecState) (p1 : Pop W) : List (Species W) :=
+  ex.sortedIds.filterMap (fun i => p1.species.find? (·.id == i))
+
+/-- the stages of one turnover with every intermediate value named: `p1` after preparation, the `babies` with the registry
+    and allocation counter after reproduction, `p2` after the ONE `speciate` call on the babies (with its placement log),
+    `p'` after the final purge -/
+structure Stages (o : EpochOpts W) (gen : Int) (p : Pop W) (rs : List Nat) (p1 : Pop W) (ex : ExecState) (rs1 : List Nat)
+    (babies : List (Org W)) (reg : Reg W) (uid : Nat) (p2 : Pop W) (log : List (Pop W × Org W)) (p' : Pop W) (rs' : List Nat) : Prop where
+  prep : prepareForReproduction o p rs = .ok ((p1, ex), rs1)
+  repro : reproduceAll o gen (sortedOf ex p1) p1.species p1.reg p1.nextUid [] rs1 = .ok ((babies, reg, uid), rs')
+  size : babies.length = o.popSize
+  spec : speciate o { p1 with reg := reg, nextUid := uid } babies = .ok p2
+  log : speciateLoopLog o { p1 with reg := reg, nextUid := uid } babies = .ok (p2, log)
+  fin : p' = finalizeReproduction p2
+
+/-- `blocks` are the lists `reproduceSpecies` returns for the species `ss` one after the other (registry, allocation
+    counter and stream threaded through), ending in `fin` -/
+def ReproBlocks (o : EpochOpts W) (gen : Int) (sorted : List (Species W)) :
+    List (Species W) → Reg W → Nat → List Nat → List (List (Org W)) → Reg W × Nat × List Nat → Prop
+  | [], reg, uid, rs, blocks, fin => blocks = [] ∧ fin = (reg, uid, rs)
+  | s :: ss, reg, uid, rs, blocks, fin =>
+    ∃ bs reg1 uid1 rs1 rest, reproduceSpecies o gen s sorted reg uid rs = .ok ((bs, reg1, uid1), rs1) ∧
+      blocks = bs :: rest ∧ ReproBlocks o gen sorted ss reg1 uid1 rs1 rest fin
+
+/-- the babies are the concatenation, in species order, of what each species' `reproduce` returned -/
+theorem reproduceAll_blocks (o : EpochOpts W) (gen : Int) (sorted ss : List (Species W)) (reg reg' : Reg W) (uid uid' : Nat)
+    (acc babies : List (Org W)) (rs rs' : List Nat)
+    (h : reproduceAll o gen sorted ss reg uid acc rs = .ok ((babies, reg', uid'), rs')) :
+    ∃ blocks, ReproBlocks o gen sorted ss reg uid rs blocks (reg', uid', rs') ∧ babies = acc ++ blocks.flatten := by
+  induction ss generalizing reg uid acc rs with
+  | nil =>
+    simp only [reproduceAll, Except.ok.injEq, Prod.mk.injEq] at h
+    obtain ⟨⟨rfl, rfl, rfl⟩, rfl⟩ := h
+    exact ⟨[], ⟨rfl, rfl⟩, by simp⟩
+  | cons s ss ih =>
+    unfold reproduceAll at h
+    split at h
+    · cases h
+    · rename_i bs reg1 uid1 rs1 hs
+      obtain ⟨blocks, hb, e⟩ := ih _ _ _ _ h
+      exact ⟨bs :: blocks, ⟨bs, reg1, uid1, rs1, blocks, hs, rfl, hb⟩, by rw [e]; simp⟩
+
+/-- allocation ids are handed out consecutively in order of creation -/
+theorem reproduceAll_consecutive (o : EpochOpts W) (gen : Int) (sorted ss : List (Species W)) (reg reg' : Reg W) (uid uid' : Nat)
+    (acc babies : List (Org W)) (rs rs' : List Nat)
+    (h : reproduceAll o gen sorted ss reg uid acc rs = .ok ((babies, reg', uid'), rs')) :
+    ∃ n, babies.map (·.uid) = acc.map (·.uid) ++ (List.range n).map (· + uid) ∧ babies.length = acc.length + n := by
+  induction ss generalizing reg uid acc rs with
+  | nil =>
+    simp only [reproduceAll, Except.ok.injEq, Prod.mk.injEq] at h
+    obtain ⟨⟨rfl, rfl, rfl⟩, rfl⟩ := h
+    exact ⟨0, by simp, rfl⟩
+  | cons s ss ih =>
+    unfold reproduceAll at h
+    split at h
+    · cases h
+    · rename_i bs reg1 uid1 rs1 hs
+      obtain ⟨hb1, hb2⟩ := C02.reproduceSpecies_uids _ _ _ _ _ _ _ _ _ _ _ hs
+      obtain ⟨n, e1, e2⟩ := ih _ _ _ _ h
+      refine ⟨bs.length + n, ?_, by rw [e2, List.length_append]; omega⟩
+      rw [e1, List.map_append, hb1, hb2, List.append_assoc, List.range_add, List.map_append, List.map_map]
+      congr 2
+      apply List.map_congr_left
+      intro a _
+      simp only [Function.comp]
+      omega
+
+/-- **C08 over the epoch, (a): the epoch hands the babies to `speciate` once, in order of creation.**  If
+    `nextEpoch o gen p rs` returns `(p', rs')` then there are: the prepared population `p1`; the list `babies` that
+    `reproduceAll` returned — the concatenation `blocks.flatten`, in the order of `p1.species`, of the lists each species'
+    `reproduce` returned, carrying the consecutive allocation ids `p1.nextUid, p1.nextUid + 1, …` (allocation = creation);
+    the population `p2` that exactly one call `speciate o {p1 with reg, nextUid} babies` returned, with its placement
+    log (one entry per baby, in that order); and `p' = finalizeReproduction p2` (purgeOldGeneration, purgeOrAgeSpecies,
+    forgetting the innovation records). -/
+theorem nextEpoch_speciates_babies (o : EpochOpts W) (gen : Int) (p p' : Pop W) (rs rs' : List Nat)
+    (h : nextEpoch o gen p rs = .ok (p', rs')) :
+    ∃ p1 ex rs1 babies reg uid p2 log blocks, Stages o gen p rs p1 ex rs1 babies reg uid p2 log p' rs' ∧
+      ReproBlocks o gen (sortedOf ex p1) p1.species p1.reg p1.nextUid rs1 blocks (reg, uid, rs') ∧
+      babies = blocks.flatten ∧
+      babies.map (·.uid) = (List.range o.popSize).map (· + p1.nextUid) ∧
+      log.map (·.2) = babies := by
+  unfold nextEpoch at h
+  split at h
+  · cases h
+  · rename_i p1 ex rs1 hprep
+    split at h
+    · cases h
+    · rename_i p2 rs2 hrep
+      simp only [Except.ok.injEq, Prod.mk.injEq] at h
+      obtain ⟨rfl, rfl⟩ := h
+      unfold reproducePhase at hrep
+      simp only at hrep
+      split at hrep
+      · cases hrep
+      · rename_i babies reg uid rs3 hall
+        split at hrep
+        · cases hrep
+        · rename_i hlen
+          split at hrep
+          · cases hrep
+          · rename_i p2' hsp
+            simp only [Except.ok.injEq, Prod.mk.injEq] at hrep
+            obtain ⟨rfl, rfl⟩ := hrep
+            have hlen' : babies.length = o.popSize := by simpa using hlen
+            have hloop : speciateLoop o { p1 with reg := reg, nextUid := uid } babies = .ok p2' := by
+              unfold speciate at hsp
+              split at hsp
+              · cases hsp
+              · exact hsp
+            obtain ⟨log, hlog⟩ := log_of_speciateLoop o _ _ _ hloop
+            obtain ⟨blocks, hblocks, hflat⟩ := reproduceAll_blocks o gen _ _ _ _ _ _ _ _ _ _ hall
+            obtain ⟨n, hn1, hn2⟩ := reproduceAll_consecutive o gen _ _ _ _ _ _ _ _ _ _ hall
+            simp only [List.map_nil, List.nil_append, List.length_nil, Nat.zero_add] at hn1 hn2
+            refine ⟨p1, ex, rs1, babies, reg, uid, p2', log, blocks, ⟨hprep, hall, hlen', hsp, hlog, rfl⟩, hblocks,
+              by simpa using hflat, by rw [hn1, ← hn2, hlen'], speciateLoopLog_orgs o _ _ _ _ hlog⟩
+
 end GoNeat.C08
